@@ -347,6 +347,12 @@ DIRECTED = [
     ("offline-nothing-there", "tar", "none", True, True, {}, [], None, "lf", {"net": "offline"}),
     ("no-url-wrong-sized-archive", "tgz", "none", True, True, {"arch": "Th"}, [], None, "lf", {"net": "nourl"}),
     ("http-404-test-mode", "bz2", "fail", False, False, {}, ["http"], None, "crlf"),
+    # a run that fails the line-count check must not leave a table that lets a plain retry skip the check (chain A: the
+    # second run is the retry, nothing changed on disk in between)
+    ("retry-after-line-count-error-short-body", "none", "none", False, False, {}, [{"k": "body", "c": "Th", "hdr": True}], None, "crlf"),
+    ("retry-after-line-count-error-junk-body", "none", "none", False, False, {"off": "X"}, [{"k": "body", "c": "J", "hdr": False}], None),
+    ("retry-after-line-count-error-truncated-zst", "zst", "none", False, False, {"arch": "Th"}, [], None),
+    ("retry-after-line-count-error-bundled", "zst", "fail", False, True, {"arch": "Th"}, [], None, "lf", {"entry": "bundled", "cDecl": False}),
     # a well-formed response (Content-Length == body length) that is not the declared file: must never get the final name
     ("short-body-matching-header-declared", "gz", "none", True, True, {}, [{"k": "body", "c": "Th", "hdr": True}, "G"], None),
     ("junk-200-declared-uncompressed", "none", "none", True, False, {"tmp": "stale"}, [{"k": "body", "c": "J", "hdr": True}], None),
@@ -405,7 +411,14 @@ def _signature(clauses, item, run_idx):
         if fs["doc"] != "full":
             sig["defect"] = "wrong-document-accepted"
             if not rebuilt:
-                sig["cause"] = "line-count-check-skipped-table-trusted"
+                # the table that was trusted (so that the lines were not counted): who left it?
+                before = item["runs"][run_idx - 1] if run_idx > 0 else None
+                wrote = before is not None and len(cf.dedupe([t["off"] for t in before["traj"]])) > 1 and before["fs"]["off"] != "absent"
+                if wrote and before["end"] == "raised" and before["exc"] == "DataError":
+                    # a run that completed the table, found the wrong line count, said so - and kept the table
+                    sig["cause"] = "line-count-check-skipped-table-kept-by-run-that-failed-the-check"
+                else:
+                    sig["cause"] = "line-count-check-skipped-table-trusted"
             elif fs["doc"] == "empty":
                 sig["cause"] = "zero-lines-not-compared"
             elif fs["doc"] == "last":
